@@ -25,10 +25,12 @@ BITS = {0: "correspondence: model text / model parse / model pairs differ from t
         1: "round trip: the loaded object differs from the saved one (ids, columns, cell values or value types)",
         2: "derived state: the word pairs of the loaded LexStat differ from those of the saved one",
         3: "analysis / msa state: the alignments per cognate set (rows, segments, swaps/local/consensus annotations) or the "
-           "result of the same deterministic analysis differ between the saved and the loaded object",
+           "result of the same deterministic analysis or the scoring functions (at two decimals) differ between the saved "
+           "and the loaded object",
         4: "dst: a distance read back is not the four-decimal rounding of the value saved",
         5: "scorer: a score read back is not the two-decimal rounding of the value saved",
-        6: "re-analysis: align() on an already aligned Alignments object gives another result after save/load",
+        6: "re-analysis: align() on an already aligned Alignments object / the seeded get_scorer(force=True) of a LexStat "
+           "object gives another result after save/load",
         7: "msa blocks: a cognate set read back from its <msa> block differs from the one saved (ids, taxa, rows, "
            "plain segments, local / swaps annotations)"}
 
@@ -390,9 +392,12 @@ def gen_lexstat(rng):
         data = {0: ["doculect", "concept", "ipa"]}
         for k, (t, c, w) in d.items():
             data[k] = [t, c, "".join(w)]
+    # get_scorer before the first save (seeded, few runs): the language-specific scorer goes into a <scorer> block
+    scorer = rng.random() < 0.4
+    ignore = [] if scorer else rng.choice(["all", "all", []])
     return {"type": "lexstat", "mode": "valid", "data": data, "prettify": rng.choice([True, False]),
             "analysis": rng.choice(["sca", "edit-dist", "turchin", None]), "threshold": rng.choice([0.3, 0.45, 0.6]),
-            "history": rng.choice([1, 2]), "ignore": rng.choice(["all", "all", []])}
+            "history": rng.choice([1, 2]), "ignore": ignore, "scorer": scorer}
 
 
 MULTI_SEG = ["oː", "aː", "tʰ", "tʃ", "kʷ", "ɛ̃", "ts", "n̩"]
@@ -505,6 +510,24 @@ def _msa_state(obj, annotations=True, all_refs=False):
     return out
 
 
+def _scorer_table(sc):
+    chars = sorted(sc.chars2int)
+    return {(a, b): "{0:.2f}".format(sc[a, b]) for a in chars for b in chars}
+
+
+def _scorer_diff(saved, loaded, names=("bscorer", "rscorer", "cscorer")):
+    """The scoring functions of the two objects at two decimals.  The full tables are compared here; what goes to
+    the checker is, per scorer, the number of entries and the entries that differ (equal lists = equal scorers)."""
+    out_a, out_b = [], []
+    for n, name in enumerate(names):
+        ta = _scorer_table(getattr(saved, name)) if hasattr(saved, name) else {}
+        tb = _scorer_table(getattr(loaded, name)) if hasattr(loaded, name) else {}
+        keys = sorted(k for k in set(ta) | set(tb) if ta.get(k) != tb.get(k))[:20]
+        out_a.append([-(n + 1), [name, "n=%d" % len(ta)] + ["%s|%s|%s" % (a, b, ta.get((a, b))) for a, b in keys]])
+        out_b.append([-(n + 1), [name, "n=%d" % len(tb)] + ["%s|%s|%s" % (a, b, tb.get((a, b))) for a, b in keys]])
+    return out_a, out_b
+
+
 def _msa_struct(obj, refs=None):
     """msa[ref] of an Alignments object for every reference column (dictionary order), field by field."""
     out = []
@@ -535,6 +558,9 @@ def ser_run(case):
     for h in range(case.get("history", 1)):
         path = fresh("s")
         step = {"cols": None}
+        if h == 0 and case["type"] == "lexstat" and case.get("scorer"):
+            random.seed(1234)
+            obj.get_scorer(runs=50)
         if h == 0 and case["type"] == "alignments" and case.get("second_ref"):
             # alignments for a second cognate-id column: one more section of <msa> blocks in the file
             obj.add_alignments(ref=case["second_ref"])
@@ -582,6 +608,16 @@ def ser_run(case):
                 # the alignments per cognate set are derived state: they must survive as they are
                 ann = case.get("ignore", "all") == []      # blocks written: annotations and every reference column
                 step["analysis"] = [_msa_state(obj, ann, ann), _msa_state(loaded, ann, ann)]
+            if lex and case.get("scorer"):
+                # the scoring functions, at the two decimals the file has; then the seeded calculation again on both
+                sa, sb = _scorer_diff(obj, loaded)
+                random.seed(99)
+                obj.get_scorer(runs=50, force=True)
+                random.seed(99)
+                loaded.get_scorer(runs=50, force=True)
+                ra, rb = _scorer_diff(obj, loaded, ("cscorer",))
+                step["scorers"] = [sa, sb]
+                step["analysis2"] = [ra, rb]
             if case.get("analysis"):
                 a = _analyse(obj, case)
                 b = _analyse(loaded, case)
@@ -589,6 +625,9 @@ def ser_run(case):
                     step["analysis2"] = [a, b]
                 else:
                     step["analysis"] = [a, b]
+            if "scorers" in step:
+                a, b = step.get("analysis") or [[], []]
+                step["analysis"] = [list(a) + step["scorers"][0], list(b) + step["scorers"][1]]
         steps.append(step)
         os.remove(path + ".tsv")
         if loaded is None:
